@@ -57,13 +57,23 @@ struct C08 : RBase {
       F.push_back(func("catches", {{"n", "int"}}, "int", {blk, ret(var("x"))})); }
     { json loop{{"k", "for"}, {"n", "k"}, {"a", ilit(1)}, {"b", var("n")}, {"step", nullptr}, {"dir", ""}}; loop["body"] = json::array({let("acc", bin("+", var("acc"), var("k"))), iff(bin(">", var("acc"), ilit(5), "bool"), {ret(var("acc"))})});
       F.push_back(func("looper", {{"n", "int"}}, "int", {let("acc", ilit(0)), loop, ret(bin("-", ilit(0), var("acc")))})); }
+    // the nesting depth at which a pooled context is re-entered differs from the depth at which it was left
+    F.push_back(func("wrapd", {{"n", "int"}}, "int", {ret(call("deep", {var("n")}))}));
+    // an error kept by a handler that itself failed must not be visible to a later call
+    F.push_back(func("lasterr", {{"n", "int"}}, "str", {ret(json{{"k", "err"}, {"i", 1}, {"t", "str"}})}));
+    { json hb = json::array(); hb.push_back(json{{"k", "raise"}, {"n", "OTHERERR"}}); json h; h["n"] = "MYERR"; h["body"] = hb; json blk; blk["k"] = "begin"; blk["body"] = json::array({iff(bin(">", var("n"), ilit(0), "bool"), {json{{"k", "raise"}, {"n", "MYERR"}}})}); blk["handlers"] = json::array({h});
+      F.push_back(func("lasterr", {{"n", "int"}, {"m", "int"}}, "str", {blk, ret(json{{"k", "err"}, {"i", 1}, {"t", "str"}})})); }
     // a fault point while the arguments are bound
     int pt1 = ++p.fault_points, pt2 = ++p.fault_points;
     auto pt = [&](int id, json e) { return json{{"k", "pt"}, {"id", id}, {"m", "pt"}, {"recv", var("v", "obj")}, {"e", e}, {"t", "int"}}; };
     json& B = ast["body"]; int n = (int)r.range(6, 40);
     for (int i = 0; i < n; ++i) {
       json st;
-      switch (r.below(16)) {
+      switch (r.below(20)) {
+      case 16: st = print({call("wrapd", {ilit(r.pick(std::vector<long>{0, 1, 100, 253, 254, 255}))})}); break;
+      case 17: st = print({slit("lasterr:"), call("lasterr", {ilit(0)}, "str")}); break;
+      case 18: st = print({slit("lasterr2:"), call("lasterr", {ilit(r.range(0, 1)), ilit(0)}, "str")}); break;
+      case 19: st = print({call("deep", {ilit(r.pick(std::vector<long>{1, 2, 100, 200}))})}); break;
       case 0: st = print({call("loc", {blit(true)}, "bool")}); break;
       case 1: st = print({call("loc", {blit(false)}, "bool")}); break;
       case 2: st = print({call("shadow", {var("i0")}), var("i0"), var("i1"), var("s0", "str")}); break;
